@@ -36,6 +36,11 @@ class ContinueSig(Exception):
     pass
 
 
+class InstanceOutsideDomain(Exception):
+    """The entry assumptions of a (receiver class, finite-instantiation instance) pair are contradictory: the pair is not
+    in the domain (e.g. a width that the class invariant of the receiver class excludes); it is skipped and reported."""
+
+
 class PathEnd(Exception):
     """The current path ends here (loop step case proved, or an assumption made the path infeasible)."""
 
@@ -247,6 +252,7 @@ class FunctionResult:
         self.normal_paths = 0
         self.raising_paths = 0
         self.guards: List[Any] = []  # (function tag, kind, pc, axioms, decisions): see runner path guards
+        self.skipped_instances: List[str] = []  # (class, instance) pairs whose entry assumptions are contradictory
 
 
 class Engine:
@@ -844,6 +850,10 @@ class Engine:
             ctx = Ctx(self, contract.qualname + tagsuffix, prefix)
             try:
                 self._run_path(ctx, finfo, contract, cls, inst, res)
+            except InstanceOutsideDomain:
+                res.skipped_instances.append(tagsuffix or "<default>")
+                res.paths -= 1
+                return
             except PathEnd:
                 pass
             except EngineLimit as e:
@@ -1026,6 +1036,15 @@ class Engine:
             for label, c in self.run_spec(ctx, lambda: contract.clauses("definitions", ns)):
                 ctx.assume(lift_bool(c))  # defining equation of a ghost predicate (see Contract.definitions)
         ctx.entry_len = len(ctx.pc)
+        if res is not None and not ctx.prefix and (inst is not None or (cls is not None and cls is not finfo.cls)):
+            # first path of a finite-instantiation instance / receiver class: is the pair in the domain at all?
+            s_ = z3.Solver()
+            s_.set("timeout", 500)
+            for p_ in ctx.pc:
+                if not has_quantifier(p_):
+                    s_.add(p_)
+            if s_.check() == z3.unsat:
+                raise InstanceOutsideDomain()
         if res is not None and res.entry_pc is None:
             res.entry_pc = list(ctx.pc)
             res.entry_axioms = list(ctx.axioms)
